@@ -134,6 +134,8 @@ def run(chk):
     rule_candidates_once(chk)
     rule_member_candidates(chk)
     rule_overload_identity(chk)
+    import c03
+    c03.rule_lvalue_destination(chk, prefix="C16.viable/lvalue-parameter")      # which candidates are viable at all: an out / inout parameter takes only an lvalue of its own type
     fft = chk.anchor("C16.anchor/find_function_type", f.fn("find_function_type", TY), "find_function_type")
     if fft:
         resolved = False
